@@ -27,7 +27,7 @@ ASSUMPTIONS = [
     'bounds and values are positive (log modes are defined for them)',
 ]
 RULE = RULE + ' ' + 'Also: bounds moved by 1e-9..1e-4 relative or of trace size after a compile; update_model handed a float64 ndarray twice (the vector must be left as given and a second write must change nothing).'
-REQUIRED = {'rejected-mode-on-log-parameter': 0.05, 'observation:derived-only': 0.1, 'recompile-after-change': 0.3, 'prior-mode-mismatch': 0.08, 'derived-toggled': 0.2, 'has-update': 0.3,
+REQUIRED = {'refused-prior-then-observation-exchanged': 0.1, 'rejected-mode-on-log-parameter': 0.05, 'observation:derived-only': 0.1, 'recompile-after-change': 0.3, 'prior-mode-mismatch': 0.08, 'derived-toggled': 0.2, 'has-update': 0.3,
             'unknown-name': 0.1, 'bounds-nudged-after-compile': 0.04, 'tiny-bounds-after-compile': 0.03}
 # coverage-guided extra (thorough tier): pure-Python taurex modules on this property's path, instrumented by atheris
 FUZZ = {'include': ['taurex.optimizer.optimizer', 'taurex.core', 'taurex.data.fittable'], 'runs': 12000, 'workers': 4}
@@ -99,7 +99,7 @@ def _case(draw):
     w = draw(S.world(layers=(2, 6), nwn=(2, 3), max_active=2, extras=('SimpleClouds',), temps=('iso',), mags=['mixed']))
     w['extras'] = ['SimpleClouds']
     w['obs_kind'] = draw(st.sampled_from(['fit', 'derived-only', 'fit']))
-    return {'world': w, 'ops': ops}
+    return {'world': w, 'ops': ops, 'late_observation': draw(S.pick([False, True, False, True]))}
 
 
 def strategy(tier):
@@ -179,7 +179,19 @@ def check(case):
     out.cls('observation:' + w.get('obs_kind', 'fit'))
     try:
         W, m, obs = cut(out, 'build', make_world, w)
-        opt = cut(out, 'optimizer', Optimizer, 'verif', observed=obs, model=m)
+        if case.get('late_observation') and 'obs_offset' in obs.fittingParameters:
+            # the optimizer is first bound to a plain observation without parameters of its own; a prior for the parameter
+            # the later observation will bring is refused (the caller catches the error); then the observation is exchanged
+            from taurex.data.spectrum.array import ArraySpectrum
+            plain = ArraySpectrum(np.array(obs.rawData, dtype=float, copy=True))
+            opt = cut(out, 'optimizer', Optimizer, 'verif', observed=plain, model=m)
+            try:
+                opt.set_prior('obs_offset', make_prior('Gaussian', {'mean': 100.0, 'std': 1.0}))
+            except Exception:
+                out.cls('refused-prior-then-observation-exchanged')
+            cut(out, 'set_observed', opt.set_observed, obs)
+        else:
+            opt = cut(out, 'optimizer', Optimizer, 'verif', observed=obs, model=m)
     except CutError:
         return out
     mparams = list(m.fittingParameters.keys())
